@@ -41,7 +41,12 @@ CHAINS = [
     (('identity',), ('strip', 'new-lines')), (('run-cat',), ('strip', 'space')), (('filter', ('const', True)), ('line-nums', [('l', 2)])),
     (('case', 'upper'), ('identity',)), (('run-cat',), ('run-cat',)), (('filter', ('const', True)), ('filter', ('const', True))),
     (('run-cat',), ('line-nums', [('f', 2, 3)])), (('replace', 'x', 'y', False, None), ('strip', None)),
+    # replacements that insert or remove line breaks: the result must be re-divided into lines
+    (('replace', 'a', '\\n', False, None),), (('replace', 'a', 'b\\n\\nc', False, None),), (('replace', 'a', '\\n', True, None),), (('replace', '\\n', '', False, None),),
+    (('replace', 'a', '\\n', False, None), ('line-nums', [('l', 2)])), (('replace', ' ', '\\n', True, None), ('replace', '^', '>', True, None)),
+    (('replace', 'a', '\\nb', False, None), ('filter', ('const', True))), (('replace', '\\n', 'a', False, None), ('strip', 'new-lines')),
 ]
+NL_CHAINS = tuple(range(20, 28))
 
 
 def texts(tier):
@@ -89,12 +94,39 @@ def cases(tier):
     for kind in KINDS:
         for fm in (False, True):
             for ci in range(len(CHAINS)):
-                if tier == 'quick' and ci >= 12 and ci not in (13, 14, 18):
+                if tier == 'quick' and ci >= 12 and ci not in (13, 14, 18, 20, 22, 23, 24, 25):
                     continue
                 for i in range(0, nt, 12):
                     yield ('src', kind, fm, ci, i, min(i + 12, nt))
     for i in range(0, nt, 6):
         yield ('cli', i, min(i + 6, nt))
+    # concatenations (type_val_prims/string_source/impls/concat.py): every split of a text into 2..4 parts of every pattern of part kinds
+    ct = cat_texts(tier)
+    for pat in CAT_PATTERNS:
+        if tier == 'quick' and pat in ('fc', 'pcc', 'ffp', 'cfcf'):
+            continue
+        for ti in range(len(ct)):
+            for ci in (CAT_CHAINS if tier != 'quick' else CAT_CHAINS[:1] + CAT_CHAINS[2:3]):
+                yield ('cat', pat, ti, ci)
+
+
+CAT_PATTERNS = ('cc', 'cf', 'fc', 'cp', 'pc', 'ccc', 'cfc', 'fcf', 'cpc', 'pcc', 'ffp', 'cccc', 'cfcf')
+CAT_CHAINS = (0, 1, 8, 5)
+
+
+def cat_texts(tier):
+    n = 2 if tier == 'quick' else 3
+    ts = [''.join(t) for k in range(0, n + 1) for t in itertools.product('a\n', repeat=k)]
+    ts += ['ab\ncd', 'a\n\nb\n', 'abc', 'a\r\nb', 'a\fb\n'] + (['ab\ncd\nef\n', '\n\n\n\n', 'abcd'] if tier != 'quick' else [])
+    return ts
+
+
+def compositions(text, k):
+    """Every way to cut `text` into k consecutive (possibly empty) parts."""
+    n = len(text)
+    for cuts in itertools.combinations_with_replacement(range(n + 1), k - 1):
+        b = (0,) + cuts + (n,)
+        yield tuple(text[b[i]:b[i + 1]] for i in range(k))
 
 
 def chain_src(chain):
@@ -111,12 +143,18 @@ def chain_ref(chain, t):
     return t
 
 
-def _cr_candidates(chain, text):
+def _cr_candidates(chain, text, parts=None):
     """Defect model of KF-C14-CR: universal-newline translation may happen wherever the text passes through a file,
     i.e. before / after any stage of the chain.  All texts that can result."""
     if '\r' not in text:
         return set()
     cands = {text, kf.universal_newlines(text)}
+    if parts is not None:
+        # a concatenation: each part may pass through a file on its own (so a CR LF cut between two parts becomes LF LF)
+        for choice in itertools.product((False, True), repeat=len(parts)):
+            u = ''.join(kf.universal_newlines(pt) if c else pt for c, pt in zip(choice, parts))
+            cands.add(u)
+            cands.add(kf.universal_newlines(u))
     for tt in chain:
         nxt = set()
         for c in cands:
@@ -132,10 +170,16 @@ def buffers_for(T):
     return sorted({1, 2, max(1, n), n + 1, 8192})
 
 
-def build_source(E, kind, text, counter):
+def build_source(E, kind, text, counter, idx=0):
     """A fresh StringSource of the given kind holding `text`, or None if the kind cannot express it."""
     from exactly_lib.section_document.parse_source import ParseSource
     from exactly_lib.impls.types.string_source import parse as ssp
+    if isinstance(kind, (tuple, list)):
+        # ('cat', pattern, parts): the concatenation of the parts, part i of kind pattern[i]
+        from exactly_lib.type_val_prims.string_source.impls import concat
+        _, pat, parts = kind
+        srcs = [build_source(E, {'c': 'const', 'f': 'file', 'p': 'program'}[pk], pt, counter, idx=i) for i, (pk, pt) in enumerate(zip(pat, parts))]
+        return concat.string_source(srcs, E.mem_buff_size)
     if kind == 'const':
         return E.ssf.of_const_str(text)
     if kind == 'here':
@@ -145,12 +189,12 @@ def build_source(E, kind, text, counter):
             return None
         src = '<<EOF\n' + text + 'EOF\n'
     elif kind == 'file':
-        name = 'src%d.txt' % (counter[0] % 4)
+        name = 'src%d-%d.txt' % (counter[0] % 4, idx)
         E.write_act(name, text)
         src = '-contents-of -rel-act ' + name
     else:
-        procseam.SEAM.script['prog'] = {'out': text}
-        src = '-stdout-from % prog'
+        procseam.SEAM.script['prog%d' % idx] = {'out': text}
+        src = '-stdout-from %% prog%d' % idx
     parser = _T.get('ssparser')
     if parser is None:
         parser = _T['ssparser'] = ssp.default_parser_for(phase_is_after_act=True)
@@ -220,6 +264,8 @@ def run(case) -> Result:
             _explore(res, kind, fm, ci, t, _T['seqs'], None)
     elif k == 'one':
         _, kind, fm, ci, t, seq, buf = case
+        if isinstance(kind, list):
+            kind = (kind[0], kind[1], tuple(kind[2]))
         _explore(res, kind, fm, ci, t, [tuple(seq)], buf, bufs=(buf,))
     elif k == 'big':
         _, kind, bi, ci = case
@@ -227,6 +273,13 @@ def run(case) -> Result:
         seqs = [s for s in _T['seqs'] if len(s) == 1 or (len(s) == 2 and s[0] in ('freeze', 'lines1', 'as_file'))]
         for fm in (False, True):
             _explore(res, kind, fm, ci, t, seqs, None, bufs=(8191, 8192, 8193, 100, len(t), len(t) + 1))
+    elif k == 'cat':
+        _, pat, ti, ci = case
+        t = cat_texts(_T['tier'])[ti]
+        seqs = _T['seqs'] if _T['tier'] != 'quick' else [q for q in _T['seqs'] if len(q) < 3]
+        for parts in compositions(t, len(pat)):
+            for fm in (False, True):
+                _explore(res, ('cat', pat, parts), fm, ci, t, seqs, None, bufs=sorted({1, len(t) + 1}))
     elif k == 'cli':
         for t in _T['texts'][case[1]:case[2]]:
             _cli(res, t, case)
@@ -296,7 +349,7 @@ def _explore(res, kind, fm, ci, text, seqs, only_buf, bufs=None):
             except Exception as ex:  # noqa
                 bad.append('%s: %s during %s' % (type(ex).__name__, ex, seq))
             if bad:
-                hit = kf.classify_c14(text, _cr_candidates(chain, text), badobs, len(bad))
+                hit = kf.classify_c14(text, _cr_candidates(chain, text, kind[2] if isinstance(kind, (tuple, list)) else None), badobs, len(bad))
                 if hit:
                     res.kf[hit] += 1
                 else:
